@@ -45,6 +45,14 @@ def still_fails(f, root, env):
     rp = f.get("replay")
     if not rp:
         return True
-    cmd = f.get("replay_cmd") or (os.path.join(root, "bin", "replay") + " -replayfile " + os.path.join(root, rp))
-    p = subprocess.run(cmd, shell=True, cwd=root, env=env, capture_output=True, text=True)
-    return p.returncode == 1
+    tool = "replay"
+    try:
+        tool = json.load(open(os.path.join(root, rp))).get("tool", "replay")
+    except Exception:
+        pass
+    cmd = f.get("replay_cmd") or (os.path.join(root, "bin", tool) + " -replayfile " + os.path.join(root, rp))
+    for _ in range(4):
+        p = subprocess.run(cmd, shell=True, cwd=root, env=env, capture_output=True, text=True)
+        if p.returncode != 0:
+            return True
+    return False
